@@ -354,7 +354,7 @@ PROPS["C07"]["mir"].append(ob("open_flags_positional", "ob_file", "open_flags_po
 
 # --- round 3 of seeded changes: obligations added or shared with the property the change was written against
 PROPS["C02"]["kani"].append(PROPS["C01"]["kani"][1])      # c01_latest_pair_ts: backs contains() in the duplicate-write guard and read_with
-PROPS["C02"]["mir"].append(ob("push_step_c02", "ob_index", "push_step", kwargs={"L": 5}, thorough_kwargs={"L": 6}))
+PROPS["C02"]["mir"].append(ob("push_step_c02", "ob_index", "push_step", kwargs={"L": 5}))
 PROPS["C04"]["mir"].append(ob("blob_delete_c04", "ob_blob", "blob_delete"))
 PROPS["C06"]["mir"] += [ob("read_exact_passes_through", "ob_file", "read_exact_passes_through"),
                         ob("header_read_classified", "ob_record", "header_read_classified")]
@@ -393,3 +393,4 @@ _share("C03", "regenerate_pushes_all", "C15")
 _share("C03", "records_fold_step", "C09")
 _share("C03", "records_reverse", "C09")
 _share("C15", "load_in_memory_count", "C09")
+PROPS["C10"]["mir"].append(ob("bloom_merge_sound", "ob_bloom", "bloom_merge_sound"))
